@@ -360,9 +360,12 @@ pub async fn run_scenario(world: &mut World, req: &str, case: usize, out: &mut V
                     // now and then an API call is made while the datagram is being taken in
                     // (until the first bootstrap completion of an `early` scenario: a search with every datagram,
                     // so that one of them is handled right when the worker reports Bootstrapped)
-                    let first_completion_hunt = sim.race > 0 && sim.race_ih.is_some() && !ck.completed_once;
+                    // (boot / probe scenarios: a state query or another bootstrapped() call at that very moment —
+                    // round-5 seed C15: such a call marked the worker's state change as seen)
+                    let api_hunt = sim.race > 0 && sim.race_ih.is_none() && !ck.completed_once && (ck.kind == "boot" || ck.kind == "probe");
+                    let first_completion_hunt = (sim.race > 0 && sim.race_ih.is_some() && !ck.completed_once) || api_hunt;
                     if sim.race > 0 && f.at + 20 * S < sim.end && (first_completion_hunt || (sim.races_left > 0 && sim.dup_rng.chance(1, 3 * sim.race))) {
-                        let what = match (if first_completion_hunt { 2 } else { sim.dup_rng.below(4) }, &sim.race_ih) {
+                        let what = match (if api_hunt { sim.dup_rng.below(2) } else if first_completion_hunt { 2 } else { sim.dup_rng.below(4) }, &sim.race_ih) {
                             (0, _) => "bootstrapped".to_string(),
                             (1, _) => "state".to_string(),
                             (_, Some(ih)) => format!("search {} {}", hex(ih), sim.dup_rng.below(2)),
